@@ -111,6 +111,39 @@ pub fn run(args: &Args) -> i32 {
             }
         }
     }
+    // --- affix sweep: 40 valid digits plus ONE extra character (every code point below 0x180, a few beyond, covering 1-, 2-,
+    // 3- and 4-byte encodings) in front, in the middle or at the end; and byte-length-40 strings in which a multi-byte
+    // character stands for 2, 3 or 4 digits (parsers that count bytes in one place and characters in another)
+    {
+        let id = rng.id();
+        let base: Vec<char> = crate::bencode::hex(&id).chars().collect();
+        let extra = [0x212Au32, 0xFF10, 0xFF21, 0x0660, 0x1D7CE, 0x2080, 0x07FF, 0x0800, 0xFFFD, 0x10000, 0x1F600, 0x10FFFF];
+        for cp in (0u32..0x180).chain(extra.iter().cloned()) {
+            if let Some(ch) = char::from_u32(cp) {
+                for pos in [0usize, 1, 20, 39, 40] {
+                    let mut c = base.clone();
+                    c.insert(pos, ch);
+                    out.line(&parse_case(&c.iter().collect::<String>()));
+                    distinct += 1;
+                }
+                // two extra characters at the end; one extra at the end of 39 / 38 / 37 / 36 digits
+                let mut c = base.clone();
+                c.push(ch);
+                c.push(ch);
+                out.line(&parse_case(&c.iter().collect::<String>()));
+                for keep in [39usize, 38, 37, 36] {
+                    let mut c: Vec<char> = base[..keep].to_vec();
+                    c.push(ch);
+                    out.line(&parse_case(&c.iter().collect::<String>()));
+                    let mut c: Vec<char> = vec![ch];
+                    c.extend_from_slice(&base[..keep]);
+                    out.line(&parse_case(&c.iter().collect::<String>()));
+                    distinct += 2;
+                }
+                distinct += 1;
+            }
+        }
+    }
     // --- hex strings: valid 40-digit strings with <= 2 positions replaced by a character class, length deviations
     let classes: Vec<&str> = vec!["A", "F", "+", "-", " ", "g", "G", "z", "é", "ß", "€", "😀", "0", "x", "\u{0}", "\n"];
     let nparse = if thorough { 6000 } else { 1200 };
